@@ -31,7 +31,7 @@ def make_grid(eta, layout_name="mode_solve"):
     return Grid(eta, [None] * 3, h, layout_name, MPI.COMM_WORLD, dtype=np.complex128)
 
 
-def modes_job(comm, nprocs, p, ncells, nth, seed, out):
+def modes_job(comm, nprocs, p, ncells, nth, seed, out, factor=1.0):
     """solveEquation with the poloidal modes distributed over processes (mode_solve layout): 'treats modes independently' - the mode a
     process solves is the one of its GLOBAL index, with that mode's boundary conditions."""
     from pygyro.model.layout import getLayoutHandler
@@ -45,7 +45,7 @@ def modes_job(comm, nprocs, p, ncells, nth, seed, out):
     rho = Grid(eta, [None] * 3, h, "mode_solve", comm, dtype=np.complex128)
     phi = Grid(eta, [None] * 3, h, "mode_solve", comm, dtype=np.complex128)
     R = np.random.RandomState(seed)
-    G = R.uniform(-1, 1, (nth, 3, len(rn))) + 1j * R.uniform(-1, 1, (nth, 3, len(rn)))       # global (mode, z, r)
+    G = (R.uniform(-1, 1, (nth, 3, len(rn))) + 1j * R.uniform(-1, 1, (nth, 3, len(rn)))) * factor       # global (mode, z, r)
     lay = h.getLayout("mode_solve")
     rho.getAllData()[:] = G[lay.starts[0]:lay.ends[0], lay.starts[1]:lay.ends[1], lay.starts[2]:lay.ends[2]]
     phi.getAllData()[:] = 0
@@ -248,6 +248,17 @@ def run(ctx):
                 full[st[0]:en[0], st[1]:en[1], st[2]:en[2]] = blk
             if g == [1, 1]:
                 ref = full
+                # complex linearity: the solution of i*rho is i times the solution of rho (mode amplitudes are complex numbers)
+                out_i = [None]
+                ri = MPI.run(1, modes_job, args=(g, p_, nc_, nth_, 3, out_i, 1j))
+                if ri.ok:
+                    dev_i = float(np.max(np.abs(out_i[0][2] - 1j * full)))
+                    ctx.count(("complex-linearity", p_, nc_, nth_))
+                    if not dev_i <= 1e-11 * max(1.0, float(np.max(np.abs(full)))):
+                        ctx.violation({"kind": "not-complex-linear"}, "solveEquation(i*rho) differs from i*solveEquation(rho) by %g (degree %d, %d modes)" % (dev_i, p_, nth_),
+                                      {"degree": p_, "nth": nth_})
+                else:
+                    ctx.violation({"kind": "solver-raises", "error": ri.describe().split(":")[0][:60]}, "solveEquation(i*rho): %s" % ri.describe()[:300], {})
             ctx.count(("modes-distributed", p_, nc_, nth_, tuple(g)))
             if ref is not None and not np.max(np.abs(full - ref)) <= 1e-11 * max(1.0, float(np.max(np.abs(ref)))):
                 bad = sorted({int(i) for i in np.argwhere(np.abs(full - ref) > 1e-11 * max(1.0, float(np.max(np.abs(ref)))))[:, 0]})
